@@ -147,6 +147,17 @@ func init() {
 // selfTest: determinism of the simulator itself (see selftest.go for the
 // properties that have a scheduler); the default is a no-op success.
 func selfTest(spec *propSpec, b *build) int {
-	fmt.Println("selftest: nothing to do for", spec.id)
+	a := newAgg()
+	if spec.id == "C12" {
+		if msg := ensureRef("C12", b); msg != "" {
+			fmt.Println("selftest:", msg)
+			return 2
+		}
+	}
+	if msg := runSelfTest(spec, b, a); msg != "" {
+		fmt.Println("selftest FAILED:", msg)
+		return 2
+	}
+	fmt.Println("selftest ok:", a.counters)
 	return 0
 }
